@@ -32,6 +32,7 @@ import (
 	"context"
 	"encoding/json"
 	"fmt"
+	"math/rand"
 	"os"
 	"os/exec"
 	"regexp"
@@ -299,6 +300,11 @@ func concOverride(ctx *core.Ctx, name string, svc M) (string, int) {
 }
 
 func c01Concurrent(ctx *core.Ctx) {
+	// the stream runs first but must not shift the draws of the streams behind it (their inputs per VERIF_SEED stay what
+	// they were before round 7): it draws from a generator of its own, seeded from VERIF_SEED, installed as ctx.Rng while it runs
+	saved := ctx.Rng
+	ctx.Rng = rand.New(rand.NewSource(ctx.Seed*7919 + 701))
+	defer func() { ctx.Rng = saved }()
 	keys := make([]string, 0, len(c01ServiceCatalogue))
 	for k := range c01ServiceCatalogue {
 		keys = append(keys, k)
